@@ -149,6 +149,15 @@ def check(run):
     for lab, T in structured_transforms(rng, sum(s_.size for s_ in specs)):
         one_case(run, specs, [0.3, -0.1, 0.2], [(1, 0, 0), (0, 1, 1), (0, 0, 0)], T, "off")
         run.count("transform " + lab)
+    from checks.common import custom_order_family
+    for k in range(2 if run.tier == "quick" else 8):
+        one_case(run, custom_order_family(rng, (2, 1) if k % 2 else (1, 3)), [0.3, -0.1, 0.2], [(1, 0, 0), (0, 2, 1), (0, 0, 0)], None, "off")
+        run.count("declared (non-default) Cartesian component order")
+    # origins very far away: 3e7 and 1e9 bohr (the (0,0,0) slice must still be the overlap, every slice exact to rounding)
+    for far in ([3.0e7, -1.0e7, 2.0e7], [1.0e9, 5.0e8, -7.0e8]):
+        specs = random_basis(rng, 2, 2, lmax=2)
+        one_case(run, specs, far, [(0, 0, 0), (1, 0, 0), (0, 1, 1)], None, "very-far")
+        run.count("origin 1e7..1e9 bohr away")
     for _ in range(4 if run.tier == "quick" else 30):
         specs = random_basis(rng, 1, 3, lmax=3)
         relations(run, specs, [core.snap(rng.uniform(-1, 1), 8) for _ in range(3)])
